@@ -99,3 +99,17 @@ func (s *Set) Active(prop string) []string {
 	sort.Strings(ids)
 	return ids
 }
+
+// Active is the set loaded by the driver (read-only).
+var Active *Set
+
+// ElementInClass reports whether a single input string falls into the class of some active
+// known finding of the given property and scope (used to keep known-intransitive or
+// known-misordered elements out of checks that presuppose a consistent order).
+func ElementInClass(prop, scope, kind, s string) bool {
+	if Active == nil {
+		return false
+	}
+	v := core.Violation{Property: prop, Scope: scope, Kind: kind, Inputs: []string{s}}
+	return Active.Classifier(prop)(&v) != ""
+}
